@@ -415,7 +415,9 @@ fn check_in(dir: &Path, case: &Case, obs: &mut Obs) -> CaseResult {
                     let kept_all = la == &lb[..];
                     // (a window with gaps: the shift may push the oldest out although there was room, as in the main oracle)
                     let gaps = !wb.iter().enumerate().all(|(i, x)| x.0 == i as i64);
-                    let oldest_pushed_out = (c >= 2 || compressing) && (wb.len() as i64 == c || gaps) && !lb.is_empty() && la == &lb[..lb.len() - 1];
+                    // (the exemption for compressing rollers concerns a source that can be opened but not read - a directory;
+                    // a source that is not there is found out before the archive is created)
+                    let oldest_pushed_out = (c >= 2 || (compressing && kind % 2 == 1)) && (wb.len() as i64 == c || gaps) && !lb.is_empty() && la == &lb[..lb.len() - 1];
                     kept_all || oldest_pushed_out
                 };
                 let la_all: Vec<&Vec<u8>> = wa.iter().map(|x| &x.1).collect();
